@@ -114,3 +114,9 @@ def cases(tier, seed, ctx=None):
     # close() called a second time a little later, while a 12 MiB response is still on its way to a client that reads slowly: the
     # client still receives all of it
     yield ("tlsraw", [b"GET /bigtwice HTTP/1.1\r\nHost: h\r\n\r\n", 0, 0, [], 1, 0, 6], "tlsraw-close-again-while-flushing")
+    # through the real server wiring with handler trees (redirects with and without captures, sub-handlers, refusing middleware):
+    # whatever answers and closes, nothing is routed afterwards (no middleware, no handler runs once the connection was closed)
+    import gen_c05
+    for fam, val, tag in gen_c05.build(tier, seed + 3, ctx, True, 200 if tier == "quick" else 3000):
+        if fam in ("srv", "srvm"):
+            yield (fam, val, "tree-" + tag)
